@@ -44,6 +44,28 @@ def scan_imports(root: Path) -> list[dict]:
 
 def case_fn(case: dict, d):
     root = d / "proj"
+    if case.get("stale_core"):
+        # a core package left behind by an earlier generator version / edited by hand: every runtime file is present with
+        # DIFFERENT bytes (same size, one shorter, one longer) - regeneration must replace them with the shipped ones
+        core_pkg0 = case.get("core") or case["package"] + ".core"
+        core_dir0 = root.joinpath(*core_pkg0.split("."))
+        mod = extract_tables.parse("emitters/core_emitter.py")
+        for k, (module, filename, rel_dst) in enumerate(ast.literal_eval(extract_tables.assign_value(mod, "RUNTIME_FILES"))):
+            src = SRC.joinpath(*module.split("."), filename).read_bytes()
+            dst = core_dir0 / rel_dst.replace("core/", "", 1)
+            dst.parent.mkdir(parents=True, exist_ok=True)
+            kind = (k + case.get("stale_core", 1)) % 3
+            body = bytes(src)
+            if body:
+                i = max(0, len(body) // 2)
+                stale = body[:i] + (b"#" if body[i:i + 1] != b"#" else b"!") + body[i + 1:]     # same size, other content
+                if kind == 1:
+                    stale = stale[:-1] if len(stale) > 1 else stale + b"#"
+                elif kind == 2:
+                    stale = stale + b"# stale\n"
+            else:
+                stale = b"# stale\n"
+            dst.write_bytes(stale)
     gen = e2e.generate(case["doc"], root, package=case["package"], core=case.get("core"))
     if not gen["ok"]:
         return {"gen_ok": False, "gen_error": gen["error"]}
@@ -120,13 +142,13 @@ def check(run: Run, ctx) -> None:
     patterns = [(k, m) for _, k, m in pats if m.strip("{}.") != ""]   # a bare hole explains nothing
     run.cov["rule"] = ("every import statement (any nesting, incl. TYPE_CHECKING) of every emitted file of seeded random documents x 6 core layouts is classified "
                        "(relative / own package / core package / stdlib / httpx / cattrs / other) and matched against the extracted pattern table; runtime files "
-                       "compared by sha256 with the shipped ones; package imported with the generator blocked. distinct by (document, layout); non-trivial when models and endpoints exist")
+                       "compared by sha256 with the shipped ones (every second case starts from a core directory holding stale runtime files of the same / smaller / larger size); package imported with the generator blocked. distinct by (document, layout); non-trivial when models and endpoints exist")
     cases = []
     for i in range(ctx.budget(24, 240)):
         r = rng(f"C12:{i}")
         o = gs.Opts(mainstream=True, unions=(i % 3 == 0), streaming=(i % 4 == 0), multi_content=(i % 5 == 0), formats=("date-time", "date", "byte", "uuid"))
         pkg, core = LAYOUTS[i % len(LAYOUTS)]
-        cases.append({"id": f"c12-{i}", "doc": gs.gen_spec(r, o), "package": pkg, "core": core})
+        cases.append({"id": f"c12-{i}", "doc": gs.gen_spec(r, o), "package": pkg, "core": core, "stale_core": (1 + i % 3) if i % 2 else 0})
     results = e2e.run_cases("vf.props.C12:case_fn", cases)
     nimports = 0
     for case, res in zip(cases, results):
@@ -148,7 +170,7 @@ def check(run: Run, ctx) -> None:
             if fid and known.listed(fid):
                 known.hit(fid, {"id": case["id"], "msg": msg})
             elif len(run.violations) < 5:
-                run.violation("input", {"doc": case["doc"], "package": case["package"], "core": case.get("core")}, observed=msg,
+                run.violation("input", {"doc": case["doc"], "package": case["package"], "core": case.get("core"), "stale_core": case.get("stale_core", 0)}, observed=msg,
                               expected="only relative / own package / core package / stdlib / httpx / cattrs imports; runtime files byte-identical", what=f"{cls}: {msg}")
     run.cov["import_statements_classified"] = nimports
     run.cov["dynamic_import_call_sites"] = len(dyn)
